@@ -106,8 +106,11 @@ def gen(rng):
             usage = rng.choice(["numeric", "unsigned", "address", "bool", "bytes"])
             width = uf.FIXED_WIDTH.get(usage, rng.choice([None, 8, 12, 255, 256]))
             for cv in comp_vars:
-                if rng.random() < 0.7:
+                q = rng.random()
+                if q < 0.65:
                     js.append([cv, weakenings_of_word(rng, width, usage)])
+                elif q < 0.85:
+                    js.append([cv, "any"])       # evidence that says nothing (but is evidence)
     rng.shuffle(js)
     return var, js, classes
 
